@@ -14,14 +14,14 @@ def run(ctx):
         nonlocal i
         J.append(boolfam.harness_job(ctx, i, variant, a)); i += 1
     for k in range(4 if q else 16):
-        add("plain", fam="nest", n=25 if q else 120, emb="0", npts=40, cfg="lite" if k % 2 else "full", seed=s * 100 + k)
+        add("plain", fam="nest", n=50 if q else 300, emb="0", npts=40, cfg="lite" if k % 2 else "full", seed=s * 100 + k)
     for k in range(6 if q else 24):
-        add("plain" if k % 2 == 0 else "hi", fam="gps", n=10 if q else 40, emb="0", npts=40, cfg="full", seed=s * 1000 + k, R=[32, 48, 64][k % 3], maxpaths=3, maxv=6)
+        add("plain" if k % 2 == 0 else "hi", fam="gps", n=25 if q else 120, emb="0", npts=40, cfg="full", seed=s * 1000 + k, R=[32, 48, 64][k % 3], maxpaths=3, maxv=6)
     for k in range(4 if q else 16):
-        add("plain", fam="walk", n=25 if q else 100, grid=6, mul=2, emb="0", cfg="lite" if k % 2 else "full", seed=s * 100 + 30 + k)
+        add("plain", fam="walk", n=60 if q else 300, grid=6, mul=2, emb="0", cfg="lite" if k % 2 else "full", seed=s * 100 + 30 + k)
     add("plain", fam="ladder", emb="0", npts=40, cfg="lite", seed=s)
     for k in range(4 if q else 12):   # concentric rings + rectangles collinear with ring edges: nested polygons merged by horizontal joins
-        add("plain", fam="ringrect", n=60 if q else 250, emb="0", cfg="lite" if k % 2 else "full", seed=s * 100 + 80 + k)
+        add("plain", fam="ringrect", n=120 if q else 700, emb="0", cfg="lite" if k % 2 else "full", seed=s * 100 + 80 + k)
     if not q:
         for k in range(8):
             add("plain", fam="nest", n=60, emb="2,3", npts=40, cfg="lite", seed=s * 100 + 60 + k)
